@@ -15,12 +15,16 @@ def gen_case(rng):
     ts = rng.choice([2, 3, 4])
     k = rng.choice([t for t in range(1, 8) if t % ts != 0])
     return {'kind': 'deadwriter', 'slow_ts': ts, 'delete_at': k, 'delta': rng.choice([1, 4, 10]),
-            'ticks': k + rng.choice([ts, ts + 1, 2 * ts]), 'reaper_first': rng.random() < 0.5}
+            'ticks': k + rng.choice([ts, ts + 1, 2 * ts]), 'reaper_first': rng.random() < 0.5,
+            'regen': rng.random() < 0.4}
 
 
 def corpus():
     return [{'kind': 'deadwriter', 'slow_ts': 4, 'delete_at': 1, 'delta': 4, 'ticks': 6, 'reaper_first': False},
-            {'kind': 'deadwriter', 'slow_ts': 3, 'delete_at': 4, 'delta': 10, 'ticks': 8, 'reaper_first': True}]
+            {'kind': 'deadwriter', 'slow_ts': 3, 'delete_at': 4, 'delta': 10, 'ticks': 8, 'reaper_first': True},
+            # F40: another update of the same batch generates a compartment with the same key
+            {'kind': 'deadwriter', 'slow_ts': 4, 'delete_at': 1, 'delta': 1, 'ticks': 6, 'reaper_first': True,
+             'regen': True}]
 
 
 def run_impl(case):
@@ -51,6 +55,29 @@ def run_impl(case):
                 return {'agents': {'_delete': ['a']}}
             return {}
 
+    class Fast(Process):
+        """the process of the compartment generated anew: +1 on its own counter every time unit"""
+        def ports_schema(self):
+            return {'own': {'n': {'_default': 0, '_emit': True}, 'fresh': {'_default': 1, '_emit': True}}}
+
+        def next_update(self, timestep, states):
+            return {'own': {'n': 1}}
+
+    class Regen(Process):
+        def __init__(self, parameters=None):
+            super().__init__(parameters)
+            self.n = 0
+
+        def ports_schema(self):
+            return {'agents': {'*': {}}}
+
+        def next_update(self, timestep, states):
+            self.n += 1
+            if self.n == case['delete_at']:
+                return {'agents': {'_generate': [{'key': 'a', 'processes': {'slow': Fast()},
+                                                  'topology': {'slow': {'own': ('own',)}}, 'initial_state': {}}]}}
+            return {}
+
     obs = {}
     try:
         agents = {'a': {'slow': Slow()}, 'b': {'slow': Slow()}}      # `b` keeps the glob store populated
@@ -59,12 +86,17 @@ def run_impl(case):
         parts = [('reaper', Reaper(), {'agents': ('agents',)}), ('agents', agents, agents_topo)]
         if not case['reaper_first']:
             parts.reverse()
+        if case.get('regen'):
+            # applied after the deletion, in the same batch
+            parts.append(('regen', Regen(), {'agents': ('agents',)}))
         eng = Engine(processes={n: p for n, p, _ in parts}, topology={n: t for n, _, t in parts},
                      display_info=False, progress_bar=False)
         eng.update(case['ticks'])           # one call: the slow process really is in flight between its ticks
         vals = []
         for t, row in sorted(eng.emitter.get_data().items()):
-            vals.append([int(round(t)), row['field']['total'], sorted((row.get('agents') or {}).keys())])
+            a = ((row.get('agents') or {}).get('a') or {}).get('own') or {}
+            vals.append([int(round(t)), row['field']['total'], sorted((row.get('agents') or {}).keys()),
+                         a.get('n') if 'fresh' in a else None])
         obs['values'] = vals
     except Exception as e:  # noqa
         obs['raised'] = f'{type(e).__name__}: {str(e)[:200]}'
@@ -78,12 +110,17 @@ def oracle(case, impl):
         return []
     if impl.get('raised'):
         return [f'engine-raised: {impl["raised"]}']
-    for t, total, agents in impl['values']:
+    for t, total, agents, fresh_n in impl['values']:
+        if case.get('regen') and t >= case['delete_at']:
+            if fresh_n != t - case['delete_at']:
+                return [f'fresh-start: a compartment with the same key was generated in the batch of the deletion '
+                        f'(t={case["delete_at"]}); at t={t} its process (+1 per time unit) has counted {fresh_n}, '
+                        f'expected {t - case["delete_at"]}']
         done = min(t, case['delete_at']) // case['slow_ts']
         if total != case['delta'] * done:
             return [f'frame: the compartment was deleted at t={case["delete_at"]} with an update of its process '
                     f'(timestep {case["slow_ts"]}) in flight; at t={t} the store outside it holds {total}, the '
                     f'intervals that ended before the deletion give {case["delta"] * done}']
-        if t >= case['delete_at'] and 'a' in agents:
+        if t >= case['delete_at'] and 'a' in agents and not case.get('regen'):
             return [f'delete: the compartment is still there at t={t}']
     return []
